@@ -63,13 +63,19 @@ def k_pinball(ctx):
                 ctx.check("above-1-tau", (not d > 0) or ctx.close(r, (1 - taus[j]) * d))
 
 
-@harness("C19.shape-error", cases=lambda tier: [(2, 1, 3), (3, 2, 2), (2, 2, 3)],
+@harness("C19.shape-error",
+         cases=lambda tier: [(2, 1, (3,), "vec"), (3, 2, (2,), "vec"), (2, 2, (3,), "vec"),
+                             # y_test with n*j elements, j > 1: still not one observation per case
+                             (2, 2, (2, 2), "vec"), (2, 3, (2, 3), "vec"), (2, 1, (2, 2), "scalar"),
+                             (2, 1, (4,), "scalar"), (3, 1, (6,), "vec"), (2, 2, (4,), "vec")],
          expect=lambda c: ["inconsistent-shape-raises-ValueError"])
 def k_shape(ctx):
-    n, k, ntest = ctx.case
+    n, k, tshape, tk = ctx.case
     y_tau = ctx.real_array("yt", (n, k))
-    y_test = ctx.real_array("y", (ntest,))
+    y_test = ctx.real_array("y", tshape)
     taus = ctx.real_array("tau", (k,), lo=0, hi=1, lo_open=True, hi_open=True)
+    if tk == "scalar":
+        taus = taus[0]
     raised = None
     try:
         with _env(ctx):
